@@ -25,6 +25,8 @@ pub fn dispatch(cfg: &Cfg) -> i32 {
         "C10" => c10::run(cfg),
         "C12" => c12::run(cfg),
         "C13" => c13::run(cfg),
+        "C14" => c01_05::run_c14(cfg),
+        "C15" => c01_05::run_c15(cfg),
         "C16" => c16::run(cfg),
         "C20" => c20::run(cfg),
         p => {
